@@ -76,6 +76,9 @@ enum NetFault {
     Drop(usize),
     /// second copy of chunk i; `alter` = with a different payload byte
     Dup { i: usize, alter: bool },
+    /// second copy of chunk i, same id and payload, but another packet sequence number
+    /// (`field` 0), channel sequence number (1) or both (2): a retransmission
+    DupResent { i: usize, field: u8 },
     /// chunk i replaced by one with the same id from another board / chip
     Foreign { i: usize, other_board: bool, other_chip: bool },
     ToggleEom(usize),
@@ -100,6 +103,7 @@ impl NetFault {
             NetFault::Drop(_) => "drop",
             NetFault::Dup { alter: false, .. } => "dup_identical",
             NetFault::Dup { alter: true, .. } => "dup_differing",
+            NetFault::DupResent { .. } => "dup_resent_other_sequence_number",
             NetFault::Foreign { other_board: true, .. } => "foreign_board",
             NetFault::Foreign { .. } => "foreign_chip",
             NetFault::ToggleEom(_) => "toggle_eom",
@@ -149,6 +153,20 @@ fn apply_fault(chunks: &mut Vec<ChunkSpec>, f: &NetFault) -> bool {
                     return false;
                 }
                 c.payload[0] ^= 0x5A;
+            }
+            chunks.push(c);
+            true
+        }
+        NetFault::DupResent { i, field } => {
+            if i >= n {
+                return false;
+            }
+            let mut c = chunks[i].clone();
+            if field != 1 {
+                c.packet_seq = c.packet_seq.wrapping_add(1);
+            }
+            if field != 0 {
+                c.channel_seq = c.channel_seq.wrapping_add(1);
             }
             chunks.push(c);
             true
@@ -443,7 +461,8 @@ impl Check for C04Check {
         };
         for _ in 0..nf {
             let i = r.usize(0, n - 1);
-            faults.push(match r.below(13) {
+            faults.push(match r.below(14) {
+                13 => NetFault::DupResent { i, field: r.below(3) as u8 },
                 11 => NetFault::GrowLast { extra: *r.pick(&[1usize, 2, 3, 4, 8, 40]), zeros: r.chance(2, 3) },
                 12 => NetFault::AppendChunk { len: *r.pick(&[1usize, 4, size, size]), zeros: r.chance(2, 3) },
                 9 | 10 => NetFault::ShiftBoundary { i: if n >= 2 { r.usize(0, n - 2) } else { 0 }, d: *r.pick(&[1i32, -1, 2, -3, 4, -4, 8, 16, -16, (size as i32 / 2).max(1), -((size as i32 / 2).max(1))]) },
